@@ -1,9 +1,217 @@
-(* C17 - Values survive the journey unchanged.  Statements only; proofs in Proofs/ValueProofs*.v *)
-From Coq Require Import List NArith ZArith Bool.
-From OC Require Import Base.Bytes Model.Value.
+(* C17 - Values survive the journey unchanged.
+   Statements only; proofs live in Proofs/ValueProofs.v, ValueProofsLL.v, ValueProofsJson.v.
+   journey fx g opts = NativeTypeToGnmiTypedValue (GnmiTypedValueToNativeType g modelPath): what Get in PROTO
+   encoding and the device request carry for the value g that was set (the stored TypedValue in between).
+   fx = false: the code as it is; fx = true: the code with /verif/fixes/C17-*.patch applied. *)
+From Coq Require Import List NArith ZArith Bool Lia.
+From OC Require Import Base.Bytes Model.Value Proofs.ValueProofs Proofs.ValueProofsLL Proofs.ValueProofsJson.
 Import ListNotations.
 Open Scope Z_scope.
 
-Theorem C17_placeholder : forall s o fx, journey fx (GString s) o = Ok (GString s).
-Proof. reflexivity. Qed.
-Print Assumptions C17_placeholder.
+(* ---------------- PROTO journey, scalars: every value of the kind, every type option list, both code variants *)
+Theorem C17_rt_string : forall fx s o, journey fx (GString s) o = Ok (GString s).
+Proof. exact rt_string. Qed.
+Print Assumptions C17_rt_string.
+
+Theorem C17_rt_ascii : forall fx s o, journey fx (GAscii s) o = Ok (GString s).
+Proof. exact rt_ascii. Qed.
+Print Assumptions C17_rt_ascii.
+
+Theorem C17_rt_int : forall fx v o, int64_range v -> journey fx (GInt v) o = Ok (GInt v).
+Proof. exact rt_int. Qed.
+Print Assumptions C17_rt_int.
+
+Theorem C17_rt_uint : forall fx v o, uint64_range v -> journey fx (GUint v) o = Ok (GUint v).
+Proof. exact rt_uint. Qed.
+Print Assumptions C17_rt_uint.
+
+Theorem C17_rt_bool : forall fx b o, journey fx (GBool b) o = Ok (GBool b).
+Proof. exact rt_bool. Qed.
+Print Assumptions C17_rt_bool.
+
+Theorem C17_rt_bytes : forall fx b o, journey fx (GBytes b) o = Ok (GBytes b).
+Proof. exact rt_bytes. Qed.
+Print Assumptions C17_rt_bytes.
+
+(* decimal64 (RFC 7950: at most 18 fraction digits; 0 is let through as well) *)
+Theorem C17_rt_decimal : forall fx d p o, int64_range d -> 0 <= p <= 18 -> journey fx (GDecimal d p) o = Ok (GDecimal d p).
+Proof.
+  intros fx d p o Hd Hp. apply rt_decimal; [exact Hd | lia |].
+  unfold prec_ok. destruct fx; [apply Z.leb_le; lia | reflexivity].
+Qed.
+Print Assumptions C17_rt_decimal.
+
+(* outside decimal64: the unrepaired code keeps 8 bits of the precision ... *)
+Theorem C17_rt_decimal_precision_refuted :
+  exists d p o, int64_range d /\ journey false (GDecimal d p) o <> Ok (GDecimal d p).
+Proof. exact decimal_precision_refuted. Qed.
+Print Assumptions C17_rt_decimal_precision_refuted.
+
+Theorem C17_rt_decimal_precision_partial : forall d p o,
+  int64_range d -> 0 <= p < 256 -> journey false (GDecimal d p) o = Ok (GDecimal d p).
+Proof. intros d p o Hd Hp. apply rt_decimal; [exact Hd | exact Hp | reflexivity]. Qed.
+Print Assumptions C17_rt_decimal_precision_partial.
+
+(* ... the repaired code refuses it *)
+Theorem C17_decimal_precision_refused : forall d p o, 18 < p -> to_native true (GDecimal d p) o = Err.
+Proof. exact decimal_precision_refused. Qed.
+Print Assumptions C17_decimal_precision_refused.
+
+Theorem C17_rt_float : forall fx b o, f32_range b -> f32_is_nan b = false -> journey fx (GFloat b) o = Ok (GFloat b).
+Proof. exact rt_float. Qed.
+Print Assumptions C17_rt_float.
+
+Theorem C17_nan_refused : forall fx b o, f32_is_nan b = true -> to_native fx (GFloat b) o = Err.
+Proof. exact nan_refused. Qed.
+Print Assumptions C17_nan_refused.
+
+(* ---------------- PROTO journey, homogeneous non-empty leaf-lists *)
+Theorem C17_rt_leaflist_int : forall fx l o,
+  l <> [] -> Forall int64_range l -> journey fx (GLeafList (map GInt l)) o = Ok (GLeafList (map GInt l)).
+Proof. exact rt_ll_int. Qed.
+Print Assumptions C17_rt_leaflist_int.
+
+Theorem C17_rt_leaflist_uint : forall fx l o,
+  l <> [] -> Forall uint64_range l -> journey fx (GLeafList (map GUint l)) o = Ok (GLeafList (map GUint l)).
+Proof. exact rt_ll_uint. Qed.
+Print Assumptions C17_rt_leaflist_uint.
+
+Theorem C17_rt_leaflist_bool : forall fx l o,
+  l <> [] -> journey fx (GLeafList (map GBool l)) o = Ok (GLeafList (map GBool l)).
+Proof. exact rt_ll_bool. Qed.
+Print Assumptions C17_rt_leaflist_bool.
+
+Theorem C17_rt_leaflist_decimal : forall fx p l o,
+  l <> [] -> Forall int64_range l -> 0 <= p <= 18 ->
+  journey fx (GLeafList (map (fun d => GDecimal d p) l)) o = Ok (GLeafList (map (fun d => GDecimal d p) l)).
+Proof.
+  intros fx p l o Hne Hl Hp. apply rt_ll_decimal; [exact Hne | exact Hl | lia |].
+  unfold prec_ok. destruct fx; [apply Z.leb_le; lia | reflexivity].
+Qed.
+Print Assumptions C17_rt_leaflist_decimal.
+
+Theorem C17_rt_leaflist_float : forall fx l o,
+  l <> [] -> Forall (fun b => f32_range b /\ f32_is_nan b = false) l ->
+  journey fx (GLeafList (map GFloat l)) o = Ok (GLeafList (map GFloat l)).
+Proof. exact rt_ll_float. Qed.
+Print Assumptions C17_rt_leaflist_float.
+
+(* strings: refuted in general (finding F-12a), proved when no element holds the group separator 0x1D *)
+Theorem C17_rt_leaflist_string_refuted :
+  exists l o, l <> [] /\ journey false (GLeafList (map GString l)) o <> Ok (GLeafList (map GString l)).
+Proof. exact ll_string_refuted. Qed.
+Print Assumptions C17_rt_leaflist_string_refuted.
+
+Theorem C17_rt_leaflist_string_partial : forall fx l o,
+  l <> [] -> Forall no_gs l -> journey fx (GLeafList (map GString l)) o = Ok (GLeafList (map GString l)).
+Proof. exact rt_ll_string. Qed.
+Print Assumptions C17_rt_leaflist_string_partial.
+
+(* bytes: refuted in general (finding F-12b), proved when every element after the first is non-empty *)
+Theorem C17_rt_leaflist_bytes_refuted :
+  exists l o, l <> [] /\ journey false (GLeafList (map GBytes l)) o <> Ok (GLeafList (map GBytes l)).
+Proof. exact ll_bytes_refuted. Qed.
+Print Assumptions C17_rt_leaflist_bytes_refuted.
+
+Theorem C17_rt_leaflist_bytes_partial : forall fx l o,
+  l <> [] -> tail_nonempty l -> journey fx (GLeafList (map GBytes l)) o = Ok (GLeafList (map GBytes l)).
+Proof. exact rt_ll_bytes. Qed.
+Print Assumptions C17_rt_leaflist_bytes_partial.
+
+(* ---------------- JSON (RFC 7951 rendering, the one the server uses): type and digits *)
+(* integers: a JSON number for widths 8/16/32, a JSON string for 64; the text is %d of the value and reads back *)
+Theorem C17_json_type_digits_int : forall fx v w, int64_range v -> std_width w ->
+  exists t, to_native fx (GInt v) (Some [w]) = Ok t /\
+            json_leaf fx true t = Ok (Some (if w =? 64 then JStr (show_Z v) else JNum (show_Z v))) /\
+            read_Z (show_Z v) = Some v.
+Proof. exact json_int. Qed.
+Print Assumptions C17_json_type_digits_int.
+
+Theorem C17_json_type_digits_uint : forall fx v w, uint64_range v -> std_width w ->
+  exists t, to_native fx (GUint v) (Some [w]) = Ok t /\
+            json_leaf fx true t = Ok (Some (if w =? 64 then JStr (show_Z v) else JNum (show_Z v))) /\
+            read_Z (show_Z v) = Some v.
+Proof. exact json_uint. Qed.
+Print Assumptions C17_json_type_digits_uint.
+
+Theorem C17_json_type_digits_leaflist_int : forall fx l w, l <> [] -> Forall int64_range l -> std_width w ->
+  exists t, to_native fx (GLeafList (map GInt l)) (Some [w]) = Ok t /\
+            json_leaf fx true t = Ok (Some (JArr (map (fun v => if w =? 64 then JStr (show_Z v) else JNum (show_Z v)) l))) /\
+            Forall (fun v => read_Z (show_Z v) = Some v) l.
+Proof. exact json_ll_int. Qed.
+Print Assumptions C17_json_type_digits_leaflist_int.
+
+Theorem C17_json_type_digits_leaflist_uint : forall fx l w, l <> [] -> Forall uint64_range l -> std_width w ->
+  exists t, to_native fx (GLeafList (map GUint l)) (Some [w]) = Ok t /\
+            json_leaf fx true t = Ok (Some (JArr (map (fun v => if w =? 64 then JStr (show_Z v) else JNum (show_Z v)) l))) /\
+            Forall (fun v => read_Z (show_Z v) = Some v) l.
+Proof. exact json_ll_uint. Qed.
+Print Assumptions C17_json_type_digits_leaflist_uint.
+
+Theorem C17_json_string : forall fx rfc s o,
+  exists t, to_native fx (GString s) o = Ok t /\ json_leaf fx rfc t = Ok (Some (JStr s)).
+Proof. exact json_string. Qed.
+Print Assumptions C17_json_string.
+
+Theorem C17_json_bool : forall fx rfc b o,
+  exists t, to_native fx (GBool b) o = Ok t /\ json_leaf fx rfc t = Ok (Some (JBool b)).
+Proof. exact json_bool. Qed.
+Print Assumptions C17_json_bool.
+
+(* bytes: base64 string; the unrepaired code writes null for the empty value (finding F-12g) *)
+Theorem C17_json_bytes_refuted :
+  exists b o t, to_native false (GBytes b) o = Ok t /\ json_leaf false true t = Ok (Some JNull).
+Proof. exact json_bytes_refuted. Qed.
+Print Assumptions C17_json_bytes_refuted.
+
+Theorem C17_json_bytes_partial : forall rfc b o, b <> [] ->
+  exists t, to_native false (GBytes b) o = Ok t /\ json_leaf false rfc t = Ok (Some (JB64 b)).
+Proof. exact json_bytes_partial. Qed.
+Print Assumptions C17_json_bytes_partial.
+
+Theorem C17_json_bytes_repaired : forall rfc b o,
+  exists t, to_native true (GBytes b) o = Ok t /\ json_leaf true rfc t = Ok (Some (JB64 b)).
+Proof. exact json_bytes_fixed. Qed.
+Print Assumptions C17_json_bytes_repaired.
+
+(* decimal64: the unrepaired code loses the sign in (-1, 0) (F-12c), panics from precision 64 on (F-12d) and writes
+   leaf-list members as JSON numbers (F-12f); the repaired code writes a string that reads back exactly *)
+Theorem C17_json_decimal_sign_refuted :
+  exists d p s, int64_range d /\ 1 <= p <= 18 /\
+    json_leaf false true (new_decimal d p) = Ok (Some (JStr s)) /\ read_decimal s <> Some (d, p).
+Proof. exact json_decimal_sign_refuted. Qed.
+Print Assumptions C17_json_decimal_sign_refuted.
+
+Theorem C17_json_decimal_panic_refuted : json_leaf false true (new_decimal 5 64) = Panic.
+Proof. exact json_decimal_panic_refuted. Qed.
+Print Assumptions C17_json_decimal_panic_refuted.
+
+Theorem C17_json_leaflist_decimal_refuted :
+  json_leaf false true (new_ll_decimal [15] 1) = Ok (Some (JArr [JDivFloat 15 1])).
+Proof. exact json_ll_decimal_refuted. Qed.
+Print Assumptions C17_json_leaflist_decimal_refuted.
+
+Theorem C17_json_decimal_repaired : forall d p o, int64_range d -> 1 <= p <= 18 ->
+  exists t, to_native true (GDecimal d p) o = Ok t /\
+            json_leaf true true t = Ok (Some (JStr (str_decimal64_fixed d p))) /\
+            read_decimal (str_decimal64_fixed d p) = Some (d, p).
+Proof. exact json_decimal_fixed. Qed.
+Print Assumptions C17_json_decimal_repaired.
+
+Theorem C17_json_leaflist_decimal_repaired : forall l p o, l <> [] -> Forall int64_range l -> 1 <= p <= 18 ->
+  exists t, to_native true (GLeafList (map (fun d => GDecimal d p) l)) o = Ok t /\
+            json_leaf true true t = Ok (Some (JArr (map (fun d => JStr (str_decimal64_fixed d p)) l))) /\
+            Forall (fun d => read_decimal (str_decimal64_fixed d p) = Some (d, p)) l.
+Proof. exact json_ll_decimal_fixed. Qed.
+Print Assumptions C17_json_leaflist_decimal_repaired.
+
+(* utils.StrVal of a decimal *)
+Theorem C17_strval_decimal_refuted :
+  str_decimal64_utils false (-5) 1 = Ok (B "0.5") /\ str_decimal64_utils false 105 2 = Ok (B "1.5").
+Proof. exact strval_decimal_refuted. Qed.
+Print Assumptions C17_strval_decimal_refuted.
+
+Theorem C17_strval_decimal_repaired : forall d p, int64_range d -> 1 <= p ->
+  exists s, str_decimal64_utils true d p = Ok s /\ read_decimal s = Some (d, p).
+Proof. exact strval_decimal_fixed. Qed.
+Print Assumptions C17_strval_decimal_repaired.
